@@ -5,10 +5,70 @@ ONLY property theorems live here.  Model: InToto/Model/Schema.lean (generic json
 Unmarshal over the schema tables), InToto/Model/Metadata.lean (both loaders, Dump).
 -/
 import InToto.Model.Metadata
+import InToto.Proofs.Schema
 
 namespace InToto.C12
 set_option maxRecDepth 100000
-open InToto InToto.Json InToto.Schema InToto.Metadata
+open InToto InToto.Json InToto.Schema InToto.Metadata InToto.SchemaProofs
+
+/-- C12 (round trip, schema level): for every well-typed link value, strictly decoding what
+    `json.Marshal` wrote gives the value back (an `omitempty` field holding an empty non-nil
+    collection comes back nil — the two are the same file). -/
+theorem link_roundtrip (v : TVal) (hw : WT tyLink v) :
+    decode true tyLink (zero tyLink) (encode tyLink v) = some (normOmit tyLink v) :=
+  decode_encode true tyLink v goodTy_link hw
+
+/-- the same for layouts (steps, inspections, keys, CA maps, constraints at every nesting level) -/
+theorem layout_roundtrip (v : TVal) (hw : WT tyLayout v) :
+    decode true tyLayout (zero tyLayout) (encode tyLayout v) = some (normOmit tyLayout v) :=
+  decode_encode true tyLayout v goodTy_layout hw
+
+/-- and for signature lists (decoded without DisallowUnknownFields) -/
+theorem signatures_roundtrip (v : TVal) (hw : WT tySigs v) :
+    decode false tySigs (zero tySigs) (encode tySigs v) = some (normOmit tySigs v) :=
+  decode_encode false tySigs v goodTy_sigs hw
+
+/-- C12 (strictness): a member whose key matches no field of the struct — at whatever nesting
+    level the struct sits — makes strict decoding fail, wherever it stands among the members. -/
+theorem unknown_field_refused (fs : List (Str × Bool × Ty)) (pre post : List (Str × JVal))
+    (k : Str) (j : JVal) (cur : TVal) (hk : findField fs k = none)
+    (hpre : ∀ kv ∈ pre, findField fs kv.1 ≠ none) :
+    decode true (.struct fs) cur (.obj (pre ++ (k, j) :: post)) = none :=
+  unknown_field_rejected fs pre post k j cur hk hpre
+
+/-- C12: a value of the wrong type is refused -/
+theorem wrong_type_refused_str (strict : Bool) (cur : TVal) (j : JVal)
+    (h1 : j ≠ .null) (h2 : ∀ s, j ≠ .str s) : decode strict .str cur j = none :=
+  wrong_type_str strict cur j h1 h2
+
+theorem wrong_type_refused_int (strict : Bool) (cur : TVal) (j : JVal)
+    (h1 : j ≠ .null) (h2 : ∀ i, j ≠ .num i) : decode strict .int cur j = none :=
+  wrong_type_int strict cur j h1 h2
+
+/-- C12: an absent or null signed part or signature list is refused (both loaders share this branch) -/
+theorem absent_or_null_parts_refused (l : List (Str × JVal))
+    (h : nonNull (lastVal (lit% "signed") l) = false ∨ nonNull (lastVal (lit% "signatures") l) = false) :
+    (loadLegacy l).isOk = false :=
+  legacy_requires_parts l h
+
+/-- C12: an unknown type marker is refused -/
+theorem unknown_type_refused (l : List (Str × JVal)) (t : Str)
+    (ht : lastVal (lit% "_type") l = some (.str t)) (h1 : t ≠ lit% "link") (h2 : t ≠ lit% "layout") :
+    (loadPayload (.obj l)).isOk = false :=
+  unknown_type_marker l t ht h1 h2
+
+/-- C12: a missing mandatory top-level field is refused -/
+theorem link_missing_field_refused (l : List (Str × JVal)) (f : Str)
+    (ht : lastVal (lit% "_type") l = some (.str (lit% "link")))
+    (hf : f ∈ requiredFields fieldsLink) (hmiss : lastVal f l = none) :
+    (loadPayload (.obj l)).isOk = false :=
+  link_missing_required l f ht hf hmiss
+
+theorem layout_missing_field_refused (l : List (Str × JVal)) (f : Str)
+    (ht : lastVal (lit% "_type") l = some (.str (lit% "layout")))
+    (hf : f ∈ requiredFields fieldsLayout) (hmiss : lastVal f l = none) :
+    (loadPayload (.obj l)).isOk = false :=
+  layout_missing_required l f ht hf hmiss
 
 def goodLink : Str :=
   lit% "{\"signed\":{\"_type\":\"link\",\"name\":\"n\",\"materials\":{},\"products\":{\"a\":{\"sha256\":\"ab\"}},\"byproducts\":{},\"command\":[],\"environment\":{}},\"signatures\":[]}"
